@@ -384,6 +384,25 @@ def run_sig(spec, ctx):
             C["negated_queries"] += 1
             if want_rows:
                 C["negated_queries_with_answers"] += 1
+    if len(var_slots) >= 2 and not problems:
+        # the variable written LAST is bound by an earlier condition already when the call is reached: every parameter
+        # still gets the value of the argument written in its position
+        from krrood.entity_query_language.entity import and_
+        last = variables[var_slots[-1]]
+        LOG.clear()
+        try:
+            cond = call(*pos, **kw)
+            rows = [tuple(id(r[v]) for v in sel) for r in an(set_of(sel, and_(last.a >= 0, cond))).evaluate()]
+        except Exception as e:
+            return {"status": "fail", "kind": "evaluation-exception:" + type(e).__name__, "key": None,
+                    "detail": f"{shape} after an earlier condition bound the last variable: {type(e).__name__}: {e}"[:300]}
+        C["calls_with_a_prebound_variable"] += 1
+        C["body_calls_checked"] += len(LOG)
+        if sorted(map(ident, LOG)) != sorted(want_calls):
+            problems.append(f"with the last variable bound by an earlier condition the body runs differ from the concrete calls: "
+                            f"first {LOG[0] if LOG else None!r}")
+        if sorted(rows) != sorted(want_true):
+            problems.append(f"with the last variable bound by an earlier condition: rows {len(rows)} != {len(want_true)}")
     if problems:
         return {"status": "fail", "kind": "symbolic-evaluation", "key": None, "detail": shape + ": " + "; ".join(problems)}
     return {"status": "ok", "nontrivial": True, "shape": shape, "obs": {"calls": len(want_calls), "rows": len(want_true)}}
